@@ -1,5 +1,5 @@
 (* allow-axioms:  *)
-From RRE Require Import Base.Sx Model.ProofGraph Proofs.ProofGraphProofs.
+From RRE Require Import Base.Sx Model.ProofGraph Proofs.ProofGraphProofs Proofs.ProofGraphInvProofs.
 Open Scope N_scope.
 From RRE Require Import Properties.C17.
 Check (C17_reproof_valid : forall g h k ps,
@@ -9,3 +9,18 @@ Check (C17_reproof_proven : forall g h k ps, is_proven (insert_proof g h k ps) k
 Check (C17_invalidate_only_lowers : forall g h, nodes_le (nodes (invalidate g h)) (nodes g)).
 Check (C17_invalidate_self : forall g h n,
   find_node (nodes (invalidate g h)) h = Some n -> n_valid n = false).
+Check (C17_graph_invariant : forall ops, wf_run init ops ->
+  let g := exec init ops in
+  NoDup (map n_h (nodes g))
+  /\ (forall x n, find_node (nodes g) x = Some n -> n_valid n = true -> n_justs n <> [])
+  /\ (forall x n J q, find_node (nodes g) x = Some n -> In J (n_justs n) -> In q J -> In x (deps_of (deps g) q))
+  /\ (forall x n J q, find_node (nodes g) x = Some n -> In J (n_justs n) -> In q J -> bad [] (nodes g) q = false)).
+Check (C17_invalidate_exact : forall g h, Inv g -> forall x n, find_node (nodes g) x = Some n ->
+  exists n', find_node (nodes (invalidate g h)) x = Some n'
+    /\ n_justs n' = filter (cleanb [h] (nodes (invalidate g h))) (n_justs n)
+    /\ n_valid n' = n_valid n && negb (N.eqb x h) && nonempty (n_justs n')).
+Check (C17_invalidate_minimal : forall g h (C : N -> Prop), Inv g -> C h ->
+  (forall q, bad [] (nodes g) q = true -> C q) ->
+  (forall x n, find_node (nodes g) x = Some n -> n_justs n <> [] -> (forall J, In J (n_justs n) -> exists q, In q J /\ C q) -> C x) ->
+  forall q, bad [h] (nodes (invalidate g h)) q = true -> C q).
+Check (C17_invariant_kept : forall g o, Inv g -> op_ok g o -> Inv (fst (step g o))).
